@@ -286,6 +286,40 @@ func TestResponsesSmall(t *testing.T) {
 	evid.Exhaustive("responses-len0-2", true)
 }
 
+// TestResponsesBoundaryLengths: responses whose data length sits on every width
+// boundary of a length field or counter (255/256 short-extended, 32767/32768, the
+// 65535/65536 maximum of an extended response and beyond - the link layer, not this
+// parser, bounds what can arrive), with patterned and all-FF / all-00 content.
+func TestResponsesBoundaryLengths(t *testing.T) {
+	if evid.Shard() != 0 {
+		return
+	}
+	var lens []int
+	for _, c := range []int{256, 32768, 65536, 131072} {
+		for d := -4; d <= 4; d++ {
+			lens = append(lens, c+d)
+		}
+	}
+	lens = append(lens, 70000, 100000)
+	for _, n := range lens {
+		for fill := 0; fill < 3; fill++ {
+			b := make([]byte, n)
+			for i := range b {
+				switch fill {
+				case 0:
+					b[i] = byte(i*7 + i>>8)
+				case 1:
+					b[i] = 0xFF
+				}
+			}
+			evid.Case("rsp-boundary-length", true, fmt.Sprintf("%d/%d", n, fill), map[string]any{"response_len": n, "fill": fill, "head": hex.EncodeToString(b[:8]), "tail": hex.EncodeToString(b[n-4:])})
+			if msg := checkResponse(b); msg != "" {
+				evid.Fail(t, "responses-boundary", map[string]any{"response_len": n, "fill": fill}, "response of %d bytes: %s", n, msg)
+			}
+		}
+	}
+}
+
 func TestRandomResponses(t *testing.T) {
 	gen := rapid.OneOf(
 		rapid.SliceOfN(rapid.Byte(), 0, 8),
@@ -294,6 +328,11 @@ func TestRandomResponses(t *testing.T) {
 	)
 	evid.RapidCheck(t, 5000, 100000, func(rt *rapid.T) {
 		b := gen.Draw(rt, "rsp")
+		if rapid.IntRange(0, 15).Draw(rt, "boundary") == 0 {
+			// a long response around a width boundary (drawn head, zero-extended: cheap to generate)
+			n := rapid.SampledFrom([]int{256, 32768, 65536}).Draw(rt, "around") + rapid.IntRange(-3, 5).Draw(rt, "delta")
+			b = append(b, make([]byte, max(0, n-len(b)))...)[:n]
+		}
 		cl := "rsp-long"
 		if len(b) < 300 {
 			cl = "rsp-short"
